@@ -68,6 +68,26 @@ TxEventsOf(r) == AddValue(AddValue(GroupAttrs(IndexedAttrs(r.events), 1, << >>),
 \* what a block is indexed under (begin events, then end events, as the event bus joins them)
 BlockEventsOf(b) == AddValue(GroupAttrs(IndexedAttrs(b.begin \o b.end), 1, << >>), BlockHeightKey, ToString(b.height))
 
+\* ---------------------------------------------------------------- what the event bus publishes
+\* types/event_bus.go validateAndStringifyEvents: EVERY attribute (indexed or not) of events
+\* with a type and a key; then the predefined keys are APPENDED (an application attribute
+\* named tx.height is kept next to the real height -- the realistic trigger of S5)
+RECURSIVE FlatAll(_, _, _)
+FlatAll(events, i, j) ==
+  IF i > Len(events) THEN << >>
+  ELSE IF j > Len(events[i].attrs) THEN FlatAll(events, i + 1, 1)
+  ELSE LET a == events[i].attrs[j] IN
+       IF Len(events[i].type) > 0 /\ Len(a.k) > 0
+       THEN <<[key |-> events[i].type \o "." \o a.k, value |-> a.v]>> \o FlatAll(events, i, j + 1)
+       ELSE FlatAll(events, i, j + 1)
+Stringify(events) == GroupAttrs(FlatAll(events, 1, 1), 1, << >>)
+EventTypeKey == "tm.event"
+\* EventBus.PublishEventTx
+BusEventsTx(r) == AddValue(AddValue(AddValue(Stringify(r.events), EventTypeKey, "Tx"), TxHashKey, HashOf(r.tx)),
+                           TxHeightKey, ToString(r.height))
+\* EventBus.PublishEventNewBlock / PublishEventNewBlockHeader (which = "NewBlock" | "NewBlockHeader")
+BusEventsBlock(b, which) == AddValue(Stringify(b.begin \o b.end), EventTypeKey, which)
+
 ValuesFor(m, key) == IF HasKey(m, key) THEN ValuesOf(m, key) ELSE << >>
 
 \* ---------------------------------------------------------------- tx index: writing
